@@ -30,7 +30,10 @@ type c07Case struct {
 }
 
 var c07CtxNames = []string{"scripts only (no tx)", "1-in/1-out tx", "2-in/0-out tx", "3-in tx, other inputs unsigned", "tx whose previous txid has 31 bytes (built through the JSON API)",
-	"tx given, previous output nil, scripts given", "tx given, previous output without script, scripts given", "nil tx with a previous output, scripts given", "tx with no inputs"}
+	"tx given, previous output nil, scripts given", "tx given, previous output without script, scripts given", "nil tx with a previous output, scripts given", "tx with no inputs",
+	"tx whose checked input never had a previous txid set", "tx whose checked input has an empty previous txid (decoded from JSON without one)"}
+
+const c07NCtx = 11
 
 func c07Exec(c c07Case) error {
 	eng := interpreter.NewEngine()
@@ -79,6 +82,16 @@ func c07Opts(c c07Case, ctx int) []interpreter.ExecutionOptionFunc {
 		doc := fmt.Sprintf(`{"unlockingScript":"%s","txid":"%x","vout":0,"sequence":5}`, unlock.String(), txid32(7)[:31])
 		if err := json.Unmarshal([]byte(doc), &in); err == nil {
 			tx.Inputs[0] = &in
+		}
+		opts = append(opts, interpreter.WithTx(tx, c.Idx, prev))
+	case 9, 10:
+		tx := mkTx(2, 1)
+		for i := range tx.Inputs {
+			ni := &bt.Input{PreviousTxOutIndex: uint32(i), SequenceNumber: 0xfffffffe, UnlockingScript: libScript(c.Unlock)}
+			if ctx == 10 {
+				_ = json.Unmarshal([]byte(fmt.Sprintf(`{"unlockingScript":"%s","vout":%d,"sequence":7}`, unlock.String(), i)), ni)
+			}
+			tx.Inputs[i] = ni
 		}
 		opts = append(opts, interpreter.WithTx(tx, c.Idx, prev))
 	case 5:
@@ -259,7 +272,7 @@ var c07FlagSubset = []uint32{0, 0xffff, uint32(scriptflag.UTXOAfterGenesis), uin
 // index spaces
 //
 //	A: flagsweep   — every flag word 0..65535 x a 64-script subset, ctx 1, no debugger
-//	B: contexts    — script set x 16 flag words x 9 contexts x 5 indices x debuggers
+//	B: contexts    — script set x 16 flag words x 11 contexts x 5 indices x debuggers
 //	C: bytes       — every byte string of length<=2 as locking script x 3 unlocking seeds x 4 flag words x ctx {0,1}
 func c07Sizes(thorough bool) (a, b, c uint64) {
 	a, b, c, _ = c07Sizes4(thorough)
@@ -268,7 +281,7 @@ func c07Sizes(thorough bool) (a, b, c uint64) {
 
 var c07ReuseFlags = []uint32{0, uint32(scriptflag.EnableSighashForkID | scriptflag.UTXOAfterGenesis), 0xffff &^ uint32(scriptflag.VerifyCleanStack)}
 
-// D: reuse — one Engine value executing the same script pair twice, in every ordered pair of the 9 contexts
+// D: reuse — one Engine value executing the same script pair twice, in every ordered pair of the 11 contexts
 func c07Sizes4(thorough bool) (a, b, c, d uint64) {
 	ns := uint64(len(c07ScriptSet()))
 	sub := uint64(64)
@@ -280,9 +293,9 @@ func c07Sizes4(thorough bool) (a, b, c, d uint64) {
 	if thorough {
 		dbg = 4
 	}
-	b = ns * uint64(len(c07FlagSubset)) * 9 * 5 * dbg
+	b = ns * uint64(len(c07FlagSubset)) * c07NCtx * 5 * dbg
 	c = (1 + 256 + 65536) * 3 * 4 * 2
-	d = ns * uint64(len(c07ReuseFlags)) * 81
+	d = ns * uint64(len(c07ReuseFlags)) * c07NCtx * c07NCtx
 	return
 }
 
@@ -309,16 +322,16 @@ func c07At(thorough bool, i uint64) c07Case {
 		i /= dbgN
 		idx := c07Idx[i%5]
 		i /= 5
-		ctx := int(i % 9)
-		i /= 9
+		ctx := int(i % c07NCtx)
+		i /= c07NCtx
 		f := c07FlagSubset[i%uint64(len(c07FlagSubset))]
 		i /= uint64(len(c07FlagSubset))
 		s := set[i]
 		return c07Case{Unlock: s[0], Lock: s[1], Flags: f, Ctx: ctx, Idx: idx, Dbg: dbg}
 	case i >= a+b+cN:
 		i -= a + b + cN
-		c1, c2 := int(i%9), int(i/9%9)
-		i /= 81
+		c1, c2 := int(i%c07NCtx), int(i/c07NCtx%c07NCtx)
+		i /= c07NCtx * c07NCtx
 		f := c07ReuseFlags[i%uint64(len(c07ReuseFlags))]
 		s := set[i/uint64(len(c07ReuseFlags))]
 		return c07Case{Unlock: s[0], Lock: s[1], Flags: f, Ctx: c1, Idx: 0, Reuse: true, Ctx2: c2}
@@ -344,7 +357,7 @@ func c07At(thorough bool, i uint64) c07Case {
 
 func init() {
 	p := register(&Prop{ID: "C07", Level: "model_checking",
-		Rule: "exhaustive exploration of Engine.Execute in isolated child processes (panic recovered per case; log.Fatal / out-of-memory / hang attributed through a progress marker and reproduced twice): (A) ALL 65,536 flag words x 64 (quick) / 256 (thorough) representative script pairs with a transaction; (B) ~2,300 script pairs (every opcode with 0/1/2/3 operands and inside an unexecuted branch, signature checks followed by a top-level OP_RETURN and every one-byte tail, unlocking scripts that execute OP_CODESEPARATOR or fill the alt stack and end early against short signature-checking locking scripts, standard templates, multisig with junk signatures/keys/counts incl. 2^31-1 and 2^32, every malformed-signature class x key encodings, truncated pushes) x 16 flag words x 9 transaction contexts (none; 1-in/1-out; 2-in/0-out; other inputs unsigned; 31-byte previous txid built through JSON; nil previous output; previous output without script; nil tx; tx without inputs) x input index {-1,0,1,2,2^31-1} x debugger {none, recording, fan-out, scribbling}; (C) every byte string of length<=2 as locking script x 3 unlocking seeds x 4 flag words x with/without transaction; (D) one Engine value executing each of the script pairs twice, in every ordered pair of the 9 contexts x 3 flag words. Oracle: Execute returns nil or an error, and allocates less than 32 MiB. The lockstep checks C05/C08/C19 additionally run ~10^7 executions under the same panic containment. states = distinct (context, debugger, outcome class) combinations; transitions = executions",
+		Rule: "exhaustive exploration of Engine.Execute in isolated child processes (panic recovered per case; log.Fatal / out-of-memory / hang attributed through a progress marker and reproduced twice): (A) ALL 65,536 flag words x 64 (quick) / 256 (thorough) representative script pairs with a transaction; (B) ~2,300 script pairs (every opcode with 0/1/2/3 operands and inside an unexecuted branch, signature checks followed by a top-level OP_RETURN and every one-byte tail, unlocking scripts that execute OP_CODESEPARATOR or fill the alt stack and end early against short signature-checking locking scripts, standard templates, multisig with junk signatures/keys/counts incl. 2^31-1 and 2^32, every malformed-signature class x key encodings, truncated pushes) x 16 flag words x 11 transaction contexts (none; 1-in/1-out; 2-in/0-out; other inputs unsigned; 31-byte previous txid built through JSON; nil previous output; previous output without script; nil tx; tx without inputs; inputs that never had a previous txid; inputs with an empty one) x input index {-1,0,1,2,2^31-1} x debugger {none, recording, fan-out, scribbling}; (C) every byte string of length<=2 as locking script x 3 unlocking seeds x 4 flag words x with/without transaction; (D) one Engine value executing each of the script pairs twice, in every ordered pair of the 11 contexts x 3 flag words. Oracle: Execute returns nil or an error, and allocates less than 32 MiB. The lockstep checks C05/C08/C19 additionally run ~10^7 executions under the same panic containment. states = distinct (context, debugger, outcome class) combinations; transitions = executions",
 	})
 	NewSpace(p, "c07", c07Check)
 	worker.Register(&worker.Space{
